@@ -148,6 +148,11 @@ theorem wstep_on_sheets (w : World) (side : Bool) (op : Op)
     cases w.obj with
     | none => simp
     | some o => simp only; split <;> simp
+  | insMediaText i x idx =>
+    simp only [wstep]
+    cases w.obj with
+    | none => simp
+    | some o => simp only; split <;> simp
 
 /-- both sheets of the world are consistent -/
 def WGood (w : World) : Prop := ∀ side, Good (w.sheet side)
